@@ -12,6 +12,11 @@
 (* function of the set of points fitted (that is what "the same data" means); it is chosen     *)
 (* lazily in the first run, remembered in orc and re-used in the second.  PermutationInvariance*)
 (* compares the two results.                                                                   *)
+(*                                                                                             *)
+(* Configurations: MC_IterFit_quick (n=3, all orders, residuals {-4,0,6}, limits beyond / at),  *)
+(* MC_IterFit_thorough (n=3, all orders, 5 residual values, 3 limit pairs), MC_IterFit_chains_  *)
+(* thorough (n=4,5, every Beyond function, up to 5 fits), MC_IterFit_pair_{quick,thorough}      *)
+(* (n<=4 / n<=5, second run in every order).                                                    *)
 EXTENDS IterFit, TLC
 CONSTANTS Mode,       \* "single" or "pair"
           Ns,         \* set of problem sizes
